@@ -57,7 +57,7 @@ def main():
                          "the numerical / value-level behaviour, which is listed as not decided.") % (n, TITLES[pid], pid),
                 "design_ref": "DESIGN.md §4 " + pid,
             },
-            "level_note": ("Decided clauses only: " + m.EXPLANATION + " Trusted base: Python ast of the working tree, the CFG / interval / layout / stack engines in /verif/sa, "
+            "level_note": ("Decided clauses only: " + m.EXPLANATION + " Rule kinds: " + "; ".join(dict.fromkeys(k for _, k, _f in m.OBLIGATIONS)) + ". Trusted base: Python ast of the working tree, the CFG / interval / layout / stack engines in /verif/sa, "
                            "oracle tables in /verif/spec transcribed from the cited specifications."),
             "technique": "static analysis: " + TECH[pid],
         })
@@ -77,7 +77,9 @@ def main():
             "serves_properties": ["C%02d" % i for i in range(1, 21)],
             "kind_free_text": "pure-stdlib static analyser over Python ast: loader/constant folder, statement CFG with path-sensitive reachability, reaching definitions and origin sets, "
                               "interval-set abstract interpretation, byte-layout symbolic execution (writers and stream readers), symbolic-stack effect inference, typed attribute read-sets, "
-                              "bit-width analysis; rule tables per property in /verif/rules, oracle tables in /verif/spec",
+                              "bit-width analysis, finite-cell / formal-term abstract evaluation of the syntax tree (sa/cells.py; nothing of the repository is imported or run), "
+                              "repository-wide necessary conditions (cache keys, aliasing, identity, mutable defaults, argument forwarding); rule tables per property in /verif/rules, "
+                              "oracle tables in /verif/spec",
         }],
         "checks": checks,
         "notes": "All twenty properties are claimed for their structurally decidable clauses only (DESIGN.md §1, §4, §6). exit 0 = all obligations discharged (KNOWN-FINDING lines allowed), "
